@@ -170,6 +170,27 @@ CHECKS = {
         'note': 'A method that is accepted and silently produces nothing is allowed if the inventory balances (the property '
         'allows returns or refuses).',
     },
+    'C02': {
+        'category': 'exploration',
+        'technique': 'Hypothesis PBT on generated airports/tables/options with physical invariants + pyproj geodesic reference; exhaustive container enumeration',
+        'text': 'Generated missions between synthetic airports (antimeridian, polar, near-antipodal, short, high elevation), '
+        'perturbed and synthetic performance tables, step fractions that do not align with the 50-point buffer blocks, mass '
+        'iteration and explicit starting masses; every returned trajectory is checked for mass bookkeeping, monotonicity, '
+        'first point, positions on the WGS-84 great circle at the recorded distance, altitude schedule and finiteness; '
+        'resampling at own and intermediate times against hand-written interpolation; exhaustive list-model comparison of '
+        'the extensible container for 1..160 appends (51 520 make_point calls).',
+        'note': 'Trusted: pyproj Geod. Any exception is a rejection (appropriateness is judged by C17). Tables keep |ROCD| < TAS.',
+    },
+    'C17': {
+        'category': 'exploration',
+        'technique': 'Hypothesis rule-based state machine, differential against a fresh builder instance',
+        'text': 'Histories of valid flights, repeated missions and ten kinds of invalid flight (unknown airports, airport above '
+        'cruise level/ceiling, out-of-envelope level or mass, too-short route, three weather failures) on one builder; every '
+        'call is repeated on a fresh builder and must give bit-identical arrays/metadata or the same exception type and '
+        'message; rejections must belong to the expected family and never be internal errors; no context may be left on the '
+        'builder; the mass-iteration tolerance claim is checked on returned trajectories.',
+        'note': 'Rejecting a flyable mission is not asserted. Histories of 16 steps.',
+    },
 }
 
 NOT_YET = {}
